@@ -68,7 +68,7 @@ func init() {
 		Assumptions: kvAssume,
 		Parts: []sup.Part{
 			exhaustivePart("exhaustive", c05),
-			randomPart("random", 200, 3000, c05r),
+			randomPart("random", 800, 12000, c05r),
 		},
 		Floor: cellsFloor(300),
 	})
@@ -89,7 +89,7 @@ func init() {
 		Assumptions: kvAssume,
 		Parts: []sup.Part{
 			exhaustivePart("exhaustive", c06),
-			randomPart("random", 200, 3000, c06r),
+			randomPart("random", 800, 12000, c06r),
 		},
 		Floor: cellsFloor(300),
 	})
@@ -116,9 +116,9 @@ func init() {
 		Assumptions: append([]string{"WithMeta xattr blobs are generated in encoding/json canonical form (rosmar stores them verbatim and normalises them on the next xattr write)"}, kvAssume...),
 		Parts: []sup.Part{
 			exhaustivePart("exhaustive", c07),
-			randomPart("random", 200, 3000, c07r),
-			badJSONPart("badjson", 60, 600, c07bad),
-			randomPart("oversize", 40, 400, c07small),
+			randomPart("random", 800, 12000, c07r),
+			badJSONPart("badjson", 200, 3000, c07bad),
+			randomPart("oversize", 120, 1800, c07small),
 		},
 		Floor: cellsFloor(300),
 	})
@@ -140,7 +140,7 @@ func init() {
 		Assumptions: kvAssume,
 		Parts: []sup.Part{
 			exhaustivePart("exhaustive", c17),
-			randomPart("random", 200, 3000, c17r),
+			randomPart("random", 800, 12000, c17r),
 		},
 		Floor: cellsFloor(300),
 	})
@@ -167,7 +167,7 @@ func init() {
 		Assumptions: append([]string{"DropDataStore is exercised through the only open handle of the bucket (a sibling handle keeps a stale Collection object by design of the API)"}, kvAssume...),
 		Parts: []sup.Part{
 			exhaustivePart("exhaustive-sibling-has-key", c11),
-			randomPart("random", 200, 3000, c11r),
+			randomPart("random", 800, 12000, c11r),
 			{Name: "expiry-in-sibling-collection", Timeout: 120 * time.Second, Count: func(t string) int { return tierN(t, 4, 40) }, Run: siblingExpiryBatch},
 		},
 		Floor: cellsFloor(300),
